@@ -31,7 +31,7 @@ MANIFEST = dict(
 K_D14 = "Utf8MarkWithOtherLabel"
 K_DOUBLE = "SecondMarkRemoved"
 K_PASSTHRU = "Utf8MarkMalformedPassthru"
-K_TRUNC = "TruncatedReplacementAtEof"
+K_TRUNC = "TruncatedTailAtEofTinyBuffer"
 K_LEAD = "LegacyDanglingLeadAtEofDropped"
 LABELS = ["utf-8", "utf-16le", "utf-16be", "latin1", "shift_jis"]
 PYENC = ["utf-8", "utf-16-le", "utf-16-be", "cp1252", "shift_jis"]
@@ -148,7 +148,7 @@ def check_search_cases(ctx, cases, tmp, stats):
         expected = [reference] + ([bz(mv[0][0])] if mv is not None and mv[0] != [] else [])
         # encoding_rs_io loses the tail of a U+FFFD flushed at EOF into a caller buffer of fewer than 4 bytes
         truncated = c["capacity"] < 65536 and any(
-            e.endswith(b"\xef\xbf\xbd") and searched in (e[:-1], e[:-2]) for e in expected)
+            len(e) >= 2 and (e[-1] & 0xC0) == 0x80 and searched in (e[:-1], e[:-2], e[:-3]) for e in expected)
         if truncated:
             cls = cls | {K_TRUNC}
         # encoding_rs's legacy multi-byte decoders forget a pending lead byte on an empty non-last call
